@@ -223,7 +223,7 @@ def cold_ok_world(world):
     return world["policy"] == "ta" and bool(pmem) and all(n.get("normal") for n in pmem)
 
 
-def lifecycle_history(world, rnd, nops, disorder=0.0, reconf_cfgs=None, sync=True, fuzz=0.0, cold_bias=False):
+def lifecycle_history(world, rnd, nops, disorder=0.0, reconf_cfgs=None, sync=True, fuzz=0.0, cold_bias=False, reconf_bias=False):
     """A history over one world.  With disorder=0 the environment is a runtime consistent with its own bookkeeping
     (create before start, stop before remove, containers stopped before their pod); disorder>0 injects events for
     unknown ids, duplicates and out-of-order lifecycle events (C14)."""
@@ -327,9 +327,9 @@ def lifecycle_history(world, rnd, nops, disorder=0.0, reconf_cfgs=None, sync=Tru
             if live():
                 c = rnd.choice(live())
                 ops.append({"op": "Update", "pod": pod_of[c], "c": c, "ctr": ctr_class(rnd, pods[pod_of[c]]["qos"], big)})
-        elif k < 0.93:
+        elif k < 0.93 or (reconf_bias and k < 0.97 and rnd.random() < 0.6):
             cfg = world["config"]
-            if reconf_cfgs and rnd.random() < 0.5:
+            if reconf_cfgs and rnd.random() < (0.9 if reconf_bias else 0.5):
                 cfg = rnd.choice(reconf_cfgs)
             ops.append({"op": "Reconfigure", "config": cfg})
         elif k < 0.97 and sync:
@@ -443,15 +443,16 @@ def fill_history(world, rnd, nops, reconf=0.0, topup=False):
             ann[ANN["shared"]] = "false"
         if rnd.random() < 0.15:
             ann[ANN["isol"]] = rnd.choice(["true", "false"])
-        cpu = rnd.choice(menu)
+        # (top-up mode: only requests that survive the milli-CPU -> cpu.shares -> milli-CPU round trip: multiples of 125m)
+        cpu = rnd.choice([250, 500, 500, 750, 1000, 1000, 1250, 1500, 1500, 1750, 2000, 2000, 2500, 3000]) if topup else rnd.choice(menu)
         ops.append({"op": "RunPod", "pod": p, "pods": {"ns": "default", "qos": qos, "ann": ann}})
         ops.append({"op": "Create", "pod": p, "c": c,
                     "ctr": {"cpureq": cpu, "cpulim": cpu if qos == "Guaranteed" else 0, "memlim": 64, "memreq": 64}})
         ctrs[c], pod_of[c] = "created", p
     if topup:
-        # top the machine up to EXACTLY its capacity (every request is a multiple of 100m; refused ones do not exist),
+        # top the machine up to EXACTLY its capacity (every request is a multiple of 125m; refused ones do not exist),
         # then deliver configurations at the full machine, make a hole and deliver again
-        for size, cnt in ((500, 6), (200, 5), (100, 10)):
+        for size, cnt in ((500, 6), (250, 4), (125, 8)):
             for _ in range(cnt):
                 n += 1
                 p, c = "p%d" % n, "c%d" % n
@@ -669,6 +670,21 @@ def invalid_configs(world, rnd):
                 dict(cfg, balloonTypes=[dict(t[0], loads=["nosuchload"])] + t[1:]),                 # undefined load class
                 dict(cfg, balloonTypes=t + [{"name": "huge", "minBalloons": 4, "minCPUs": max(2, len(cpus) // 2)}])]  # unsatisfiable
     return bad
+
+
+def pin_configs(world, rnd):
+    """Configurations that differ from the booted one in pinning switches only (C12: opt-outs by configuration, incl. the
+    policy's light-weight reconfiguration path), and the booted one itself (switching back)."""
+    cfg = world["config"]
+    out = [dict(cfg, pinMemory=not cfg.get("pinMemory", True)), dict(cfg, pinCPU=not cfg.get("pinCPU", True)), cfg]
+    if world["policy"] == "balloons":
+        t = copy.deepcopy(cfg.get("balloonTypes") or [])
+        if t:
+            out += [dict(cfg, balloonTypes=[dict(x, pinMemory=False) for x in t]),
+                    dict(cfg, balloonTypes=[dict(t[0], pinMemory=False)] + t[1:]),
+                    dict(cfg, balloonTypes=t[:-1] + [dict(t[-1], pinMemory=False)]),
+                    dict(cfg, balloonTypes=[dict(x, pinMemory=True) for x in t])]
+    return out
 
 
 def valid_configs(world, rnd):
